@@ -170,6 +170,42 @@ func TestSelfAxisLaws(t *testing.T) {
 					}
 				}
 			}
+			// a second definition of the four "document order" axes by ID arithmetic and
+			// ancestry only (no tree walking): the transcription in xref must agree with it
+			isAnc := func(a, b *xdoc.Node) bool { // a is a proper ancestor of b
+				for p := b.Parent; p != nil; p = p.Parent {
+					if p == a {
+						return true
+					}
+				}
+				return false
+			}
+			for _, ax := range []string{"descendant", "ancestor", "following", "preceding"} {
+				var want []int
+				for _, y := range d.Nodes {
+					if y == x {
+						continue
+					}
+					ok := false
+					switch ax {
+					case "descendant":
+						ok = y.Kind != xpath.AttributeNode && isAnc(x, y)
+					case "ancestor":
+						ok = isAnc(y, x)
+					case "following":
+						ok = y.Kind != xpath.AttributeNode && y.ID > x.ID && !isAnc(x, y)
+					case "preceding":
+						ok = y.Kind != xpath.AttributeNode && y.ID < x.ID && !isAnc(y, x)
+					}
+					if ok {
+						want = append(want, y.ID)
+					}
+				}
+				got := harness.SetOf(xref.NodeSet(xref.AxisNodes(ax, x)).IDs())
+				if !harness.EqualInts(got, want) && !(len(got) == 0 && len(want) == 0) {
+					rt.Fatalf("axis %s from %s: transcription %v, order arithmetic %v in %s", ax, x.Desc(), got, want, d)
+				}
+			}
 			if x.Kind == xpath.AttributeNode {
 				continue
 			}
